@@ -194,11 +194,13 @@ theorem afterPosted_gov (s : St) (t : Tok) (l : Ledger) (src dst : Nat) (amt : I
         | none => exact h.throw
         | some l' => exact h.fin l' d1 d2 (f.trans (neoOnPayment_frame _ _ _ _ _ _ hn))
       · exact h.throw
-    · cases recv with
-      | none => exact h.fin l d1 d2 f
-      | accept => exact h.fin l d1 d2 f
-      | throws => exact h.throw
-      | cb => exact ⟨h.env, h.cur.frame f, h.snap⟩
+    · split
+      · exact h.throw
+      · cases recv with
+        | none => exact h.fin l d1 d2 f
+        | accept => exact h.fin l d1 d2 f
+        | throws => exact h.throw
+        | cb => exact ⟨h.env, h.cur.frame f, h.snap⟩
 
 theorem exec_gov {nt : Nat} (s : St) (op : Op) (hm : MInv nt s) (h : GMInv s) : GMInv (exec s op) := by
   cases op with
@@ -298,7 +300,7 @@ theorem exec_gov {nt : Nat} (s : St) (op : Op) (hm : MInv nt s) (h : GMInv s) : 
             cases hmg : mintGasCb s.env l acc g with
             | none => exact h.throw
             | some l' => exact h.done l' .t (fv.trans (mintGasCb_frame _ _ _ _ _ hmg))
-  | register pub =>
+  | register pub caller =>
     simp only [exec]
     split
     · exact h
@@ -371,7 +373,9 @@ theorem step_gov {nt : Nat} (s : St) (op : Op) (hm : MInv nt s) (h : GMInv s) : 
     · exact ⟨h.env, h.cur, h.snap⟩
     · exact ⟨h.env, h.cur, h.snap⟩
     · exact h
-  · exact exec_gov s op hm h
+  · split
+    · exact h.throw
+    · exact exec_gov s op hm h
 
 theorem run_gov {nt : Nat} (s : St) (ops : List Op) (hm : MInv nt s) (h : GMInv s) : GMInv (run s ops) := by
   induction ops generalizing s with
@@ -447,7 +451,9 @@ theorem step_csize (s : St) (op : Op) : (step s op).env.csize = s.env.csize := b
   unfold step
   split
   · split <;> rfl
-  · cases op <;> simp only [exec, St.throw, St.done, afterPosted] <;> (repeat' split) <;> rfl
+  · split
+    · rfl
+    · cases op <;> simp only [exec, St.throw, St.done, afterPosted] <;> (repeat' split) <;> rfl
 
 theorem run_csize (s : St) (ops : List Op) : (run s ops).env.csize = s.env.csize := by
   induction ops generalizing s with
